@@ -84,7 +84,7 @@ between GC periods and heights). Each miss was answered by a rule or a clause th
 broke, not the mutated line (section 3, "Rules written in round 6"); two agents delivered a mutation that another
 property's agent had delivered before (the double-entrance lock of `persist`, the raw read in the trie), kept because
 they measure the registration of an existing rule for a sibling property. One seed (C06-r6m1) had to be rebased after a
-later fix touched the same loop; its demonstration was re-run. Defect reports of round 6 are findings 73-98.
+later fix touched the same loop; its demonstration was re-run. Defect reports of round 6 are findings 73-99.
 
 {t6}
 
